@@ -223,11 +223,17 @@ def param_mutations(ctx: Ctx, fi: FuncInfo, pname: str, depth: int = 2, seen=Non
         return []
     seen.add(key)
     out = []
+    elem_vars = {lp.target.id for lp in ctx.types.nodes_in(fi, (ast.For, ast.comprehension)) if isinstance(lp.target, ast.Name)
+                 and isinstance(lp.iter, ast.Name) and lp.iter.id == pname}
     for n in ctx.types.nodes_in(fi):
         if isinstance(n, ast.Call) and isinstance(n.func, ast.Attribute) and isinstance(n.func.value, ast.Name) \
                 and n.func.value.id == pname and n.func.attr in _MUTATORS:
             out.append((fi, n))
         elif isinstance(n, ast.Subscript) and isinstance(n.ctx, (ast.Store, ast.Del)) and isinstance(n.value, ast.Name) and n.value.id == pname:
+            out.append((fi, n))
+        elif isinstance(n, ast.Attribute) and isinstance(n.ctx, (ast.Store, ast.Del)) and isinstance(n.value, ast.Name) and \
+                (n.value.id == pname and pname not in ("self", "cls") or n.value.id in elem_vars):
+            # a field of the object itself, or of one of its elements (for x in <param>: x.field = ...)
             out.append((fi, n))
         elif isinstance(n, ast.Call) and depth > 0:
             tg = ctx.types.resolve_call(n, fi)
@@ -237,10 +243,21 @@ def param_mutations(ctx: Ctx, fi: FuncInfo, pname: str, depth: int = 2, seen=Non
                 for gp, arg in ctx.types.bind_args(g, n).items():
                     if isinstance(arg, ast.Name) and arg.id == pname:
                         out += param_mutations(ctx, g, gp, depth - 1, seen)
-    # a rebinding of the name (args = dict(args)) makes later operations act on a private copy
-    rebinds = [b for k, b in ctx.types.local_bindings(fi, pname) if k != "param"]
-    if rebinds:
-        return []
+    # an unconditional rebinding of the name (args = dict(args)) makes later operations act on a private copy; a
+    # conditional one (if args is None: args = {}) leaves the caller's object in place on the other path
+    from .. import paths as _paths
+    first_copy = None
+    for k, b in ctx.types.local_bindings(fi, pname):
+        if k == "param":
+            continue
+        node = b[1] if isinstance(b, tuple) else b
+        st = _paths.stmt_of(ctx.prog, node) if isinstance(node, ast.AST) else None
+        if st is None:
+            return []
+        if not _paths.conditions(ctx.prog, st, fi) and not _paths.enclosing_loops(ctx.prog, st, fi):
+            first_copy = st.lineno if first_copy is None else min(first_copy, st.lineno)
+    if first_copy is not None:
+        out = [(f_, n_) for f_, n_ in out if f_ is fi and n_.lineno < first_copy]
     return out
 
 
@@ -357,3 +374,243 @@ def identity_cache_field(ctx: Ctx) -> str:
                 out.append(attr)
     need(len(set(out)) == 1, "VariableCacheProvider: expected one mapping field created in the constructor, found %s" % sorted(set(out)))
     return out[0]
+
+
+def _flat_targets(n):
+    tg = list(n.targets) if isinstance(n, (ast.Assign, ast.Delete)) else [n.target]
+    out = []
+    while tg:
+        x = tg.pop()
+        if isinstance(x, (ast.Tuple, ast.List)):
+            tg.extend(x.elts)
+        elif isinstance(x, ast.Starred):
+            tg.append(x.value)
+        else:
+            out.append(x)
+    return out
+
+
+def process_wide_writes(ctx: Ctx, funcs):
+    """[(function, node, what)] writes of `funcs` into state that belongs to the whole process and not to the hit, the
+    thread or an object the agent created for it: attributes / items of module-level objects (also through a local
+    alias), class-level attributes (`Cls.x = ..`, `cls.x`, `type(self).x`, in-place changes of a container that only
+    exists on the class), names declared `global`. Instance fields (`self.x = ..`) are not covered here."""
+    p, t = ctx.prog, ctx.types
+    out = []
+
+    def root_of(e):
+        chain = []
+        while isinstance(e, (ast.Attribute, ast.Subscript)):
+            chain.append(e.attr if isinstance(e, ast.Attribute) else "[]")
+            e = e.value
+        return e, list(reversed(chain))
+
+    def classify(base, fi, depth=0):
+        """base: the expression whose attribute / item is written. -> description or None"""
+        r, chain = root_of(base)
+        if isinstance(r, ast.Call) and isinstance(r.func, ast.Name) and r.func.id == "type" and len(r.args) == 1:
+            return "the class of `%s`" % norm(r.args[0])
+        if not isinstance(r, ast.Name):
+            return None
+        if chain and chain[0] == "__class__":
+            return "the class of `%s`" % r.id
+        binds = t.local_bindings(fi, r.id)
+        kinds = {k for k, _ in binds}
+        if kinds and kinds != {"import"}:
+            if "param" in kinds:
+                first = fi.params[0] if fi.params else None
+                if r.id == first and fi.cls is not None and chain:
+                    if r.id == "cls" or any(isinstance(d, ast.Name) and d.id == "classmethod" for d in fi.node.decorator_list):
+                        return "class attribute `%s.%s`" % (fi.cls.name, chain[0])
+                    # self.attr.<change>: a container that is never given to the instance lives on the class
+                    attr = chain[0]
+                    mangled = attr if not (attr.startswith("__") and not attr.endswith("__")) else "_%s%s" % (fi.cls.name.lstrip("_"), attr)
+                    for c in fi.cls.mro:
+                        if attr in c.class_attrs or mangled in c.class_attrs:
+                            stores = t.field_stores(fi.cls, attr) or t.field_stores(fi.cls, mangled)
+                            v = c.class_attrs.get(attr, c.class_attrs.get(mangled))
+                            if not stores and isinstance(v, (ast.Dict, ast.List, ast.Set, ast.Call, ast.DictComp, ast.ListComp)):
+                                return "class-level container `%s.%s`" % (c.name, attr)
+                return None
+            if depth < 3 and len(binds) == 1 and binds[0][0] == "assign":
+                v = binds[0][1][1]
+                if isinstance(v, (ast.Name, ast.Attribute)):
+                    return classify(v, fi, depth + 1)
+            return None
+        owner = fi
+        while owner is not None and owner.parent is not None:
+            # a closure variable of the enclosing function is per call, not process wide
+            owner = owner.parent
+            if t.local_bindings(owner, r.id):
+                return None
+        rs = p.resolve_name_in_module(fi.module, r.id)
+        if rs is None:
+            return None
+        if rs[0] == "const":
+            v = rs[1].consts.get(rs[2])
+            if isinstance(v, ast.Constant):
+                return None
+            return "module-level object `%s`" % r.id
+        if rs[0] == "cls":
+            return "class `%s`" % rs[1].name
+        return None
+
+    def classify_alias(v, fi):
+        """v names the object itself (not a place inside it)"""
+        holder = ast.Attribute(value=v, attr="_", ctx=ast.Load())
+        return classify(holder.value, fi) if not isinstance(v, ast.Name) else classify_name(v, fi)
+
+    def classify_name(nm, fi):
+        if t.local_bindings(fi, nm.id):
+            return None
+        rs = p.resolve_name_in_module(fi.module, nm.id)
+        if rs and rs[0] == "const" and isinstance(rs[1].consts.get(rs[2]), (ast.List, ast.Dict, ast.Set, ast.Call, ast.ListComp, ast.DictComp)):
+            return "module-level object `%s`" % nm.id
+        return None
+
+    for fi in funcs:
+        globs = {nm for n in t.nodes_in(fi, ast.Global) for nm in n.names}
+        for n in t.nodes_in(fi, (ast.Assign, ast.AugAssign, ast.AnnAssign, ast.Delete)):
+            if isinstance(n, ast.AnnAssign) and n.value is None:
+                continue
+            for x in _flat_targets(n):
+                if isinstance(x, ast.Name) and x.id in globs:
+                    out.append((fi, n, "global `%s`" % x.id))
+                elif isinstance(x, ast.Name) and isinstance(n, ast.AugAssign):
+                    # alias = SHARED; alias += [...] changes the shared list in place
+                    asg = [b for k, b in t.local_bindings(fi, x.id) if k != "aug"]
+                    if len(asg) == 1 and isinstance(asg[0], tuple) and isinstance(asg[0][1], (ast.Name, ast.Attribute)):
+                        w = classify_alias(asg[0][1], fi)
+                        if w:
+                            out.append((fi, n, w))
+                elif isinstance(x, (ast.Attribute, ast.Subscript)):
+                    w = classify(x.value, fi)
+                    if w is None and isinstance(x, ast.Subscript):
+                        w = None
+                    if w:
+                        out.append((fi, n, w))
+        for c in t.calls_in(fi):
+            if isinstance(c.func, ast.Attribute) and c.func.attr in _MUTATORS:
+                w = classify(c.func.value, fi)
+                # a mutator on the object itself (X.append) needs X to be process wide; classify() answers for writes
+                # *into* its argument, which is what a mutator call is
+                if w:
+                    out.append((fi, c, w))
+    return out
+
+
+def _is_lock_expr(e) -> bool:
+    return "lock" in norm(e).lower() or "mutex" in norm(e).lower()
+
+
+def lock_leaks(ctx: Ctx, funcs):
+    """[(function, acquire call, why)] explicit `<lock>.acquire(...)` whose release is not guaranteed: no `release()`
+    of the same lock in a `finally` that covers everything after the acquisition (a `with` block needs no rule)."""
+    p, t = ctx.prog, ctx.types
+    out = []
+    for fi in funcs:
+        for c in t.calls_in(fi):
+            if not (isinstance(c.func, ast.Attribute) and c.func.attr == "acquire" and _is_lock_expr(c.func.value)):
+                continue
+            lk = norm(c.func.value)
+            rels = [r for r in t.calls_in(fi) if isinstance(r.func, ast.Attribute) and r.func.attr == "release" and norm(r.func.value) == lk]
+            if not rels:
+                out.append((fi, c, "never released in %s" % fi.name))
+                continue
+            safe = False
+            for tr in t.nodes_in(fi, ast.Try):
+                if tr.finalbody and any(r is n for st in tr.finalbody for n in ast.walk(st) for r in rels) and tr.lineno >= c.lineno:
+                    # nothing that can fail between the acquisition and the try
+                    between = [n for n in t.calls_in(fi) if c.lineno < n.lineno < tr.lineno]
+                    if not between:
+                        safe = True
+            if not safe:
+                first = min(rels, key=lambda r: r.lineno)
+                risky = [n for n in t.calls_in(fi) if c.lineno < n.lineno < first.lineno or (n.lineno == c.lineno and n is not c and n.col_offset > c.col_offset)]
+                if risky or len(rels) > 1 or first.lineno < c.lineno:
+                    out.append((fi, c, "released by a plain `%s.release()` and not in a finally: when `%s` fails the lock stays held for ever" % (
+                        lk, norm(risky[0])[:50] if risky else "a statement in between")))
+    return out
+
+
+def guarded_field_escapes(ctx: Ctx, cls):
+    """[(function, node, field)] accesses, outside any `with <lock>` block, of instance fields that the class assigns
+    inside one (constructor excluded): the value seen there is not the one the critical section produced."""
+    p, t = ctx.prog, ctx.types
+    inside, outside = {}, {}
+    for lst in cls.methods.values():
+        for m in lst:
+            if m.name == "__init__":
+                continue
+            locked = set()
+            for w in t.nodes_in(m, ast.With):
+                if any(_is_lock_expr(it.context_expr) for it in w.items):
+                    for n in ast.walk(w):
+                        locked.add(id(n))
+            for n in t.nodes_in(m, ast.Attribute):
+                if isinstance(n.value, ast.Name) and n.value.id == "self" and not _is_lock_expr(n):
+                    (inside if id(n) in locked else outside).setdefault(n.attr, []).append((m, n))
+    out = []
+    fields = sorted(f for f, acc in inside.items() if any(isinstance(n.ctx, (ast.Store, ast.Del)) for _, n in acc))
+    for f in fields:
+        for m, n in outside.get(f, []):
+            out.append((m, n, f))
+    return fields, out
+
+
+def stale_memo_fields(ctx: Ctx, cls):
+    """[(method that assigns F, node, memo field K, source field F, method that fills K)] - K is filled, outside the
+    constructor, with a value worked out from instance field F and consulted before it is worked out again (a memo);
+    a method that gives F a new value and leaves K alone makes every later answer the answer for the old F."""
+    p, t = ctx.prog, ctx.types
+    methods = [m for lst in cls.methods.values() for m in lst]
+
+    def self_field(e):
+        return e.attr if isinstance(e, ast.Attribute) and isinstance(e.value, ast.Name) and e.value.id == "self" else None
+
+    out = []
+    for m in methods:
+        if m.name == "__init__":
+            continue
+        fills = []      # (K, value expr, node)
+        for n in t.nodes_in(m, (ast.Assign, ast.AnnAssign)):
+            tgs = n.targets if isinstance(n, ast.Assign) else [n.target]
+            for tg in tgs:
+                k = self_field(tg) or (self_field(tg.value) if isinstance(tg, ast.Subscript) else None)
+                if k and n.value is not None:
+                    fills.append((k, n.value, n))
+        for c in t.calls_in(m):
+            if isinstance(c.func, ast.Attribute) and c.func.attr in ("setdefault", "update", "append", "add") and self_field(c.func.value) and c.args:
+                fills.append((self_field(c.func.value), c.args[-1], c))
+        for k, v, node in fills:
+            # consulted in the same method before it is filled: self.K.get(..) / self.K[..] / `self.K is None` / `in self.K`
+            consulted = [a for a in t.nodes_in(m, ast.Attribute) if self_field(a) == k and isinstance(a.ctx, ast.Load) and a.lineno <= node.lineno
+                         and not any(a is x for x in ast.walk(node))]
+            if not consulted:
+                continue
+            srcs = set()
+            seen_names = set()
+            stack = [v]
+            while stack:
+                e = stack.pop()
+                for a in ast.walk(e):
+                    f = self_field(a)
+                    if f and f != k and isinstance(a.ctx, ast.Load):
+                        srcs.add(f)
+                    if isinstance(a, ast.Name) and a.id not in seen_names:
+                        seen_names.add(a.id)
+                        for kind, b in t.local_bindings(m, a.id):
+                            if isinstance(b, tuple) and b[1] is not None:
+                                stack.append(b[1])
+            for f in sorted(srcs):
+                for m2 in methods:
+                    if m2 is m or m2.name == "__init__":
+                        continue
+                    assigns = [a for a in t.nodes_in(m2, ast.Attribute) if self_field(a) == f and isinstance(a.ctx, ast.Store)]
+                    if not assigns:
+                        continue
+                    resets = [a for a in t.nodes_in(m2, ast.Attribute) if self_field(a) == k and isinstance(a.ctx, (ast.Store, ast.Del))] + \
+                             [c for c in t.calls_in(m2) if isinstance(c.func, ast.Attribute) and c.func.attr in ("clear", "pop", "popitem") and self_field(c.func.value) == k]
+                    if not resets:
+                        out.append((m2, assigns[0], k, f, m))
+    return out
